@@ -30,6 +30,9 @@ export function hostilePool() {
     for (let i = 0; i < 200; i++) v = { a: 1, next: v };
     return v;
   })();
+  // an object that cannot be converted to a string (no toString / valueOf) and serialises to nothing
+  const unstringable = Object.create(null);
+  unstringable.toJSON = () => undefined;
   const cyclic = { a: "a" };
   cyclic.self = cyclic;
   const cyclicArr = [1];
@@ -44,6 +47,7 @@ export function hostilePool() {
     new Proxy({ a: "a" }, {}), deep, deepObj, { kind: "toString" }, { kind: "constructor" }, { type: "__proto__" },
     { kind: "a" }, { type: "a" }, { _tag: "a" }, { tag: "hasOwnProperty" }, [[]], [{}], { length: 0 }, "__proto__",
     Object.assign(Object.create({ inherited: 1 }), { a: "a" }),
+    unstringable, new Map([[unstringable, "x"]]), new Set([unstringable]), [unstringable], { a: unstringable },
   ];
 }
 
@@ -309,3 +313,26 @@ export class ValGen {
   }
 }
 export { NONE };
+
+// containers with very many items of the wrong kind (reporting must not depend on gathering them all)
+export function bulkValues(n = 200000) {
+  const bad = Array(n).fill("x");
+  const badNums = Array(n).fill(7);
+  const obj = {};
+  for (let i = 0; i < 60000; i++) obj["k" + i] = i % 2 ? "s" : 1;
+  const map = new Map();
+  const set = new Set();
+  for (let i = 0; i < n; i++) {
+    map.set("k" + i, i % 2 ? "s" : i);
+    set.add(i % 2 ? "s" + i : i);
+  }
+  return [
+    ["array-of-strings", bad], ["array-of-numbers", badNums], ["object-with-array-of-strings", { items: bad, a: bad }], ["object-with-array-of-numbers", { items: badNums, a: badNums }],
+    ["wide-object", obj], ["big-map", map], ["big-set", set], ["tuple-like", ["a", ...badNums]], ["tuple-like-strings", [1, ...bad]],
+  ];
+}
+export const BULK_PROGRAM = `export const Parsers = parse.buildParsers<{
+  A: number[]; B: string[]; C: { items: number[] }; D: { items: string[]; a?: boolean[] }; E: [string, ...string[]]; F: [number, ...number[]];
+  G: Record<string, number>; H: { a: number }; I: Map<string, number>; J: Set<number>; K: string | number[]; L: { items: (string | boolean[])[] } & { a: number[] };
+}>();
+`;
